@@ -110,6 +110,8 @@ pub struct Behaviour {
     pub always_attach_record: bool,
     /// Record bytes to return for distance 0 instead of the peer's own record.
     pub nodes_record_override: Option<Vec<u8>>,
+    /// Never answers FINDNODE [0] (the request a node sends to learn this peer's record).
+    pub ignore_enr_requests: bool,
 }
 
 impl Default for Behaviour {
@@ -123,6 +125,7 @@ impl Default for Behaviour {
             known_victim_seq: 0,
             always_attach_record: false,
             nodes_record_override: None,
+            ignore_enr_requests: false,
         }
     }
 }
@@ -471,6 +474,9 @@ impl Engine {
         }
         self.peers[i].requests_seen.push((m.id().to_vec(), m.type_byte()));
         if !self.peers[i].behaviour.respond {
+            return;
+        }
+        if self.peers[i].behaviour.ignore_enr_requests && matches!(&m, RefMessage::FindNode { distances, .. } if distances == &vec![0u64]) {
             return;
         }
         let id = m.id().to_vec();
